@@ -201,6 +201,12 @@ func genC19(r *Rng, tier string) []Case {
 				emit("cbor", items, len(res.L[1].B), []string{"plain"})
 			}
 		}
+		// programs whose LAST write is the one-byte head of an empty string (no later write can mask a dropped error)
+		for _, items := range [][]Sx{{it("b", B(nil))}, {it("t", B(nil))}, {it("u", Zu(7)), it("b", B(nil))}, {it("a", Zi(2)), it("u", Zu(7)), it("t", B(nil))}, {it("b", B([]byte("xy"))), it("b", B(nil)), it("t", B(nil))}} {
+			if res := opCborProg(items); res.L[0].IsSym("ok") {
+				emit("cbor", items, len(res.L[1].B), []string{"plain"})
+			}
+		}
 		// CBOR encoder programs incl. maps
 		for i := 0; i < 4; i++ {
 			items := []Sx{}
